@@ -6,9 +6,12 @@ import runlib as R
 ID = 'C04'
 COQ_TARGETS = ['Props/Properties_C04.vo']
 PROPS_FILES = ['Props/Properties_C04.v']
-THEOREMS = ['C04_exit_wellformed', 'C04_reports_partial', 'C04_refuted', 'C04_classes_necessary', 'C04_checker_sound']
+THEOREMS = ['C04_exit_wellformed', 'C04_reports_partial', 'C04_refuted', 'C04_classes_necessary', 'C04_checker_sound',
+            'C04_connect_fix_present', 'C04_connect_reports', 'C04_connect_to_exit', 'C04_connect_refuted', 'C04_connect_spec_holds']
 ENGINES = [dict(name='qrenv', c_sources=['qrenv_h.c'], extract='Extract/Extract_qrenv.v', driver='qrenv_driver.ml',
-                accepts=lambda c: c.startswith('c4 '))]
+                accepts=lambda c: c.startswith('c4 ')),
+           dict(name='qrconn', c_sources=['tlssw_h.c'], extract='Extract/Extract_qrconn.v', driver='qrconn_driver.ml',
+                glue=('glue.ml', 'glue_z.ml'), accepts=lambda c: c.startswith('c9 '), shrink_from=3)]
 SHRINK_FROM = 6      # fields 0..5 are positional (op ext rhost sender msg n)
 RULE = ('cases = (extension set, sender, 0..5 recipients, server script); script = for each of MAIL FROM / every RCPT TO / DATA / '
         'end of data one reply drawn from {2xx, 3xx, 4xx, 5xx} x {one line, 2-3 lines, lines with differing codes, NUL inside a line} '
@@ -153,6 +156,8 @@ def classes(case):
     return out
 
 def classify(case, c_out):
+    if case.startswith('c9 '):
+        return None
     cl = classes(case)
     return cl[0] if cl else None
 
@@ -187,7 +192,112 @@ def script_of(alpha, names):
             break
     return evs
 
+# ------------------------------------------------------------------ connect phase (engine qrconn)
+def conn_fields(pre, flags=0, tlsa=b'', hs=0, vfy=0, post=(), tls=()):
+    return ['%02x' % flags, R.hx(tlsa), '%02x' % hs, '%02x' % vfy, '%02x' % len(pre), '%02x' % len(post), '%02x' % len(tls)] + \
+           [R.hx(x) for x in pre] + [R.hx(x) for x in post] + [R.hx(x) for x in tls]
+
+def conn_case(conns, route=0):
+    f = ['c9', '%02x' % route, '%02x' % len(conns)]
+    for c in conns:
+        f += c
+    return ' '.join(f)
+
+SILENT, DUP2, NAMED, PINFILE, PINLOAD = 8, 16, 1, 2, 4
+LONG = b'220 ' + b'x' * 1100
+GREETINGS = {
+    'none': [], 'ok': [b'220 mx ESMTP'], 'ok-multi': [b'220-mx', b'220-hello', b'220 ready'],
+    'mixed': [b'220-mx', b'250 ready'], 'mixed2': [b'220-mx', b'554-no', b'220 x'], 'cont-end': [b'220-mx'],
+    '554': [b'554 go away'], '421m': [b'421-busy', b'421 later'], '451': [b'451 x'], '250': [b'250 hi'],
+    'short': [b'22'], 'alpha': [b'hello'], 'nosep': [b'220x'], 'empty': [b''], 'low': [b'120 x'], 'nul': [b'220 a\0b'],
+    'long': [LONG], 'cont-bad': [b'220-mx', b'xyz'], 'cont-long': [b'220-mx', LONG],
+}
+EHLOS = {
+    'none': [], 'plain': [b'250 mx'], 'exts': [b'250-mx', b'250-PIPELINING', b'250-8BITMIME', b'250 SIZE 1000'],
+    'size-bad': [b'250-mx', b'250-SIZE abc', b'250 PIPELINING'], 'pipe-arg': [b'250-mx', b'250 PIPELINING x'],
+    'auth': [b'250-mx', b'250-AUTH PLAIN LOGIN', b'250 SMTPUTF8'], 'mixed': [b'250-mx', b'550 no'], 'cont-end': [b'250-mx', b'250-SIZE'],
+    'cont-bad': [b'250-mx', b'25'], 'long': [b'250-mx', b'250-' + b'y' * 1200, b'250 ok'],
+    'helo-ok': [b'500 what', b'250 mx'], 'helo-multi': [b'502-no', b'502 ehlo', b'250-mx', b'250 hi'], 'helo-no': [b'500 what', b'500 what'],
+    'helo-4xx': [b'500 what', b'421 bye'], 'helo-end': [b'500 what'], 'helo-mixed': [b'500 what', b'250-mx', b'550 x'],
+    '421': [b'421 closing'], 'tls': [b'250-mx', b'250-STARTTLS', b'250 PIPELINING'],
+}
+TAILS = {'bye': [b'221 bye'], 'none': [], 'multi': [b'221-bye', b'221 now'], 'long': [LONG], 'junk': [b'x']}
+
+def segments(rng, lines, unterminated=None):
+    """lines -> read() segments: one per line / all in one / cut at random places"""
+    data = b''.join(l + b'\r\n' for l in lines)
+    if unterminated is not None:
+        data += unterminated
+    if not data:
+        return []
+    mode = rng.random()
+    if mode < 0.45:
+        segs = [l + b'\r\n' for l in lines] + ([unterminated] if unterminated else [])
+    elif mode < 0.7:
+        segs = [data]
+    else:
+        cuts = sorted(rng.randrange(1, len(data)) for _ in range(rng.randrange(1, 4))) if len(data) > 1 else []
+        segs, a = [], 0
+        for c in cuts + [len(data)]:
+            if c > a:
+                segs.append(data[a:c]); a = c
+    return [x for x in segs if x][:200]
+
+def gen_conn(rng, last):
+    gk, ek = sorted(GREETINGS), sorted(EHLOS)
+    good = rng.random() < (0.55 if last else 0.25)
+    g = rng.choice(['ok', 'ok', 'ok-multi']) if good or rng.random() < 0.4 else rng.choice(gk)
+    e = rng.choice(['plain', 'exts', 'auth', 'helo-ok', 'helo-multi']) if good else rng.choice(ek)
+    t = rng.choice(sorted(TAILS))
+    lines = list(GREETINGS[g])
+    flags = 0
+    if g in ('ok', 'ok-multi'):
+        lines += EHLOS[e]
+        lines += TAILS[t]
+    else:
+        lines += rng.choice([[], [b'221 bye'], [b'221-a', b'221 b']])       # what answers the QUIT
+    unterminated = rng.choice([None, None, None, b'220 unfinished', b'2', b'250-x\r', b'z' * 1500])
+    if rng.random() < 0.45:
+        flags |= SILENT
+    if rng.random() < 0.03:
+        flags |= DUP2
+    if rng.random() < 0.3:
+        flags |= NAMED
+        if rng.random() < 0.15:
+            flags |= PINFILE | (PINLOAD if rng.random() < 0.7 else 0)
+    tlsa = b''
+    if flags & NAMED and rng.random() < 0.1:
+        tlsa = bytes([3, rng.choice([0, 1, 2])])
+    post, tls, hs = [], [], 0
+    if e == 'tls':
+        pre_lines = list(GREETINGS[g]) + EHLOS[e] + rng.choice([[b'220 go'], [b'220 go'], [b'454 no tls'], [b'220-go', b'220 ahead'], []])
+        hs = rng.choice([0, 0, 0, 1, 2, 4])
+        tls = segments(rng, rng.choice([EHLOS['plain'], EHLOS['exts'], [b'500 what', b'250 mx'], [], [b'421 x']]) + TAILS[t])
+        post = segments(rng, rng.choice([[], [b'221 bye']]))
+        return conn_fields(segments(rng, pre_lines, unterminated if rng.random() < 0.2 else None), flags, tlsa, hs, rng.choice([0, 0, 18]), post, tls)
+    return conn_fields(segments(rng, lines, unterminated), flags, tlsa)
+
+def gen_conn_cases(rng, tier):
+    out = []
+    # every greeting x every EHLO answer x (closes | stays silent), one MX, one line per segment
+    for g in sorted(GREETINGS):
+        for fl in (0, SILENT):
+            out.append(conn_case([conn_fields([l + b'\r\n' for l in GREETINGS[g]], fl)]))
+    for e in sorted(EHLOS):
+        if e == 'tls':
+            continue
+        for fl in (0, SILENT):
+            out.append(conn_case([conn_fields([l + b'\r\n' for l in [b'220 mx'] + EHLOS[e]], fl)]))
+            out.append(conn_case([conn_fields([l + b'\r\n' for l in [b'220 mx'] + EHLOS[e] + [b'221 bye']], fl)]))
+    n = 900 if tier == 'quick' else 40000
+    for _ in range(n):
+        k = rng.choice([1, 1, 2, 2, 3, 4])
+        out.append(conn_case([gen_conn(rng, i == k - 1) for i in range(k)], route=1 if rng.random() < 0.08 else 0))
+    return out
+
 def gen_cases(engine, rng, tier):
+    if engine == 'qrconn':
+        return gen_conn_cases(rng, tier)
     alpha = reply_alphabet()
     keys = sorted(alpha)
     out = []
@@ -251,6 +361,9 @@ def gen_cases(engine, rng, tier):
     return out
 
 def nontrivial(case, c_out):
+    if case.startswith('c9 '):
+        # more than one connection attempt, or a connection that got as far as EHLO
+        return c_out.count(' C') > 1 or ' Wc45484c4f' in c_out
     f = c_out.split()
     if len(f) != 6 or f[0] != 'EXIT':
         return False
@@ -259,7 +372,17 @@ def nontrivial(case, c_out):
 
 def distribution(results):
     d = {}
+    dc = {'exit_in_connect_phase_with_report': 0, 'reached_send_envelope': 0, 'silent_first_greeting': 0}
     for r in results:
+        if r['case'].startswith('c9 '):
+            t = r['c'].split()
+            if any(x.startswith('M') for x in t):
+                dc['reached_send_envelope'] += 1
+            elif any(x.startswith('S') for x in t):
+                dc['exit_in_connect_phase_with_report'] += 1
+            if 'S5a342e342e31' in t and not any(x.startswith('W') for x in t):
+                dc['silent_first_greeting'] += 1
+            continue
         f = r['c'].split()
         if len(f) != 6 or f[0] != 'EXIT':
             k = f[0] if f else 'empty'
@@ -271,7 +394,10 @@ def distribution(results):
         d[k] = d.get(k, 0) + 1
     top = dict(sorted(d.items(), key=lambda kv: -kv[1])[:40])
     top['classes'] = {}
+    top['connect_phase'] = dc
     for r in results:
+        if r['case'].startswith('c9 '):
+            continue
         for c in classes(r['case']):
             top['classes'][c] = top['classes'].get(c, 0) + 1
     return top
